@@ -228,7 +228,16 @@ def run_block(case):
             "outcome": "block:" + "+".join(sorted(outcomes)), "fails": fails[:12]}
 
 
+def run_twice(case):
+    """One property name on two lines, each occurrence with its own parameter map (shared with C05's harness): the map of an
+    occurrence whose VALUE is empty or zero comes back like any other."""
+    from mc.checks import c05 as _c05
+    return _c05.run_twice(case)
+
+
 def replay(case):
+    if case[0] == "tw":
+        return run_twice(case)
     return run_block(case) if case[0] == "blk" else run_case(case)
 
 
@@ -261,6 +270,16 @@ def run(ctx):
                     yield ("one", f"vtimezone:{provider}", name, shape, s_)
 
     ctx.explore("parameters inside a custom VTIMEZONE", gen_vtz, run_case)
+
+    def gen_twice():
+        for cname in ("VEVENT", "VTODO"):
+            for name in ("COMMENT", "X-A", "ATTENDEE", "RESOURCES"):
+                for v1 in ("", "0", "first"):
+                    for v2 in ("", "second"):
+                        for how in ("text", "api"):
+                            yield ("tw", cname, name, v1, v2, how)
+
+    ctx.explore("parameter maps of a repeated property", gen_twice, run_twice)
 
     def gen_all():
         for b in range(0, 0x110000, BLOCK):
